@@ -356,7 +356,9 @@ class VgiAccessLogFormatter(VgiJsonFormatter):
        and set ``truncated: true`` plus ``original_request_bytes``.
     2. Drop ``error_message`` and ``claims``.
     3. Fall back to a minimal sentinel record carrying only the
-       always-required envelope fields plus ``truncated: "record_too_large"``.
+       always-required envelope fields, the conditionally required ones
+       (``error_message`` on an error, ``stream_id`` on a stream record)
+       plus ``truncated: "record_too_large"``.
 
     The default cap (1 MiB) is large enough for almost any realistic record
     while still keeping a hard upper bound on per-line size for shippers.
@@ -431,4 +433,9 @@ class VgiAccessLogFormatter(VgiJsonFormatter):
         if sentinel["status"] == "error":
             err = obj.get("error_message")
             sentinel["error_message"] = err if isinstance(err, str) and err else "record_too_large"
+        # Conditionally required, like error_message: the schema demands
+        # stream_id on every stream record, the sentinel form included.
+        stream_id = obj.get("stream_id")
+        if sentinel["method_type"] == "stream" and stream_id:
+            sentinel["stream_id"] = stream_id
         return json.dumps(sentinel, default=str)
